@@ -155,9 +155,12 @@ def laguerre_der(n, alpha, x):
 
     """
     # see wiki
-    # d^k/dx^k L_n^alpha = (-1)^k L_(n-k)^(alpha+k)
+    # d^k/dx^k L_n^alpha = (-1)^k L_(n-k)^(alpha+k), and zero for n < k
     k = 1
-    return laguerre(n-k, alpha+k, x)
+    if n < k:
+        return np.zeros_like(x)
+
+    return -laguerre(n-k, alpha+k, x)
 
 
 def laguerre_der_seq(ns, alpha, x):
